@@ -1,6 +1,221 @@
 import CkbVerif.Driver.Util
+import CkbVerif.Model.Indexer
+
+/-! Line-protocol driver for C18 (protocol: see harness/hnode/src/c18.rs). `ckbmodel C18`. -/
 namespace CkbVerif.Driver.C18
-def main (_args : List String) : IO UInt32 := do
-  IO.eprintln "C18: model driver not implemented"
-  return 2
+open CkbVerif.Driver CkbVerif.Indexer CkbVerif.Gen.Indexer
+
+structure St where
+  store : Store := []
+  keep : Nat := 100
+  interval : Nat := 1000
+
+/-! ### parsing -/
+
+def parseDotted? (s : String) : Option (List Nat) :=
+  if s = "-" then some [] else (s.splitOn ".").mapM parseNat?
+
+/-- `code.a.b.c` -/
+def parseScript? (s : String) : Option Script :=
+  match (s.splitOn ".").mapM parseNat? with
+  | some (c :: args) => some ⟨c, args⟩
+  | _ => none
+
+def parseOptScript? (s : String) : Option (Option Script) :=
+  if s = "-" then some none else (parseScript? s).map some
+
+def parseOutPoint? (s : String) : Option OutPoint :=
+  match (s.splitOn ".").mapM parseNat? with
+  | some [t, i] => some ⟨t, i⟩
+  | _ => none
+
+/-- `lock:type:cap:data` -/
+def parseOutput? (s : String) : Option Output :=
+  match s.splitOn ":" with
+  | [l, t, c, d] => do
+    let l ← parseScript? l
+    let t ← parseOptScript? t
+    let c ← parseNat? c
+    let d ← parseDotted? d
+    pure ⟨c, l, t, d⟩
+  | _ => none
+
+def parseList? {α : Type} (f : String → Option α) (s : String) : Option (List α) :=
+  if s = "-" then some [] else (s.splitOn ",").mapM f
+
+/-- `id/in,in/out,out` -/
+def parseTx? (s : String) : Option Tx :=
+  match s.splitOn "/" with
+  | [id, ins, outs] => do
+    let id ← parseNat? id
+    let ins ← parseList? parseOutPoint? ins
+    let outs ← parseList? parseOutput? outs
+    pure ⟨id, ins, outs⟩
+  | _ => none
+
+def parseRange? (s : String) : Option (Option (Nat × Nat)) :=
+  if s = "-" then some none else
+  match (s.splitOn ":").mapM parseNat? with
+  | some [a, b] => some (some (a, b))
+  | _ => none
+
+def parseData? (s : String) : Option (Option (DataMode × List Nat)) :=
+  if s = "-" then some none else
+  match s.splitOn ":" with
+  | [m, d] => do
+    let d ← parseDotted? d
+    let m ← (match m with | "p" => some DataMode.pre | "e" => some .exact | "i" => some .infix | _ => none)
+    pure (some (m, d))
+  | _ => none
+
+def parseFilter? (ts : List String) : Option Filter :=
+  match ts with
+  | [fs, slr, d, dlr, cr, br] => do
+    let fs ← parseOptScript? fs
+    let slr ← parseRange? slr
+    let d ← parseData? d
+    let dlr ← parseRange? dlr
+    let cr ← parseRange? cr
+    let br ← parseRange? br
+    pure ⟨fs, slr, d, dlr, cr, br⟩
+  | _ => none
+
+def parseKind? (s : String) : Option Bool :=
+  match s with | "lock" => some true | "type" => some false | _ => none
+
+def parseMode? (s : String) : Option Bool :=
+  match s with | "exact" => some true | "pre" => some false | _ => none
+
+def parseOrder? (s : String) : Option Bool :=
+  match s with | "desc" => some true | "asc" => some false | _ => none
+
+/-! ### rendering -/
+
+def showDotted (l : List Nat) : String :=
+  if l.isEmpty then "-" else ".".intercalate (l.map toString)
+
+def showScript (s : Script) : String := ".".intercalate ((s.code :: s.args).map toString)
+
+def showOptScript : Option Script → String
+  | none => "-"
+  | some s => showScript s
+
+def showOp (o : OutPoint) : String := s!"{o.tx}.{o.idx}"
+
+def showOutput (o : Output) : String :=
+  s!"{showScript o.lock}:{showOptScript o.type}:{o.cap}:{showDotted o.data}"
+
+def showCell (c : Cell) : String := s!"{c.bn}.{c.txIdx}.{showOutput c.out}"
+
+def joinOr (sep : String) (l : List String) : String :=
+  if l.isEmpty then "-" else sep.intercalate l
+
+def showIo : IoType → String
+  | .input => "i"
+  | .output => "o"
+
+def showVal : Val → String
+  | .cell c => showCell c
+  | .tx h => toString h
+  | .inputs l => joinOr "," (l.map showOp)
+  | .txs l => joinOr "," (l.map fun (t, n, i) => s!"{t}.{n}.{match i with | some i => toString i | none => "-"}")
+
+def showKey : Key → String
+  | .outPoint op => s!"O/{showOp op}"
+  | .consumed bn op => s!"C/{bn}/{showOp op}"
+  | .cellLock s bn tx io => s!"L/{showScript s}/{bn}/{tx}/{io}"
+  | .cellType s bn tx io => s!"T/{showScript s}/{bn}/{tx}/{io}"
+  | .txLock s bn tx io t => s!"l/{showScript s}/{bn}/{tx}/{io}/{showIo t}"
+  | .txType s bn tx io t => s!"t/{showScript s}/{bn}/{tx}/{io}/{showIo t}"
+  | .txHash tx => s!"H/{tx}"
+  | .header bn h f => s!"B/{bn}/{h}/{if f then "f" else "u"}"
+
+def showTip (s : Store) : String :=
+  match tip s with
+  | some (n, h) => s!"tip {n}.{h}"
+  | none => "tip none"
+
+def showCellAns (a : CellAns) : String :=
+  s!"{showOp a.op}@{a.cell.bn}.{a.cell.txIdx}:{a.cell.out.cap}:{a.cell.out.data.length}"
+
+def showTxRow (r : TxRow) : String :=
+  s!"{r.tx}@{r.bn}.{r.txIdx}.{r.io}.{if r.isInput then "i" else "o"}"
+
+def showTxGroup (g : TxGroup) : String :=
+  let cells := ";".intercalate (g.cells.map fun (i, n) => s!"{if i then "i" else "o"}{n}")
+  s!"{g.tx}@{g.bn}.{g.txIdx}[{cells}]"
+
+def showPages (l : List (List String)) : String :=
+  "|".intercalate (l.map (joinOr ","))
+
+def strLe (a b : String) : Bool := !(b < a)
+
+/-! ### interpreter -/
+
+def step (st : St) (ts : List String) : St × String :=
+  match ts with
+  | ["config", k, i] =>
+    match parseNat? k, parseNat? i with
+    | some k, some i => ({ st with keep := k, interval := i }, "ok")
+    | _, _ => (st, "bad-op")
+  | "append" :: num :: hash :: txs =>
+    match parseNat? num, parseNat? hash, txs.mapM parseTx? with
+    | some num, some hash, some txs =>
+      let s := append st.keep st.interval st.store ⟨num, hash, txs⟩
+      ({ st with store := s }, showTip s)
+    | _, _, _ => (st, "bad-op")
+  | ["rollback"] =>
+    let s := rollback st.store
+    ({ st with store := s }, showTip s)
+  | ["prune"] =>
+    let s := prune st.store st.keep
+    ({ st with store := s }, showTip s)
+  | ["tip"] => (st, showTip st.store)
+  | ["live", kind, q] =>
+    match parseKind? kind, parseScript? q with
+    | some k, some q =>
+      let fam := if k then KP_CELL_LOCK_SCRIPT else KP_CELL_TYPE_SCRIPT
+      (st, "live " ++ joinOr "," ((liveCellsByScript st.store fam q).map showOp))
+    | _, _ => (st, "bad-op")
+  | ["rawtxs", kind, q] =>
+    match parseKind? kind, parseScript? q with
+    | some k, some q =>
+      let fam := if k then KP_TX_LOCK_SCRIPT else KP_TX_TYPE_SCRIPT
+      (st, "rawtxs " ++ joinOr "," ((transactionsByScript st.store fam q).map toString))
+    | _, _ => (st, "bad-op")
+  | "cells" :: kind :: q :: mode :: order :: limit :: f =>
+    match parseKind? kind, parseScript? q, parseMode? mode, parseOrder? order, parseNat? limit, parseFilter? f with
+    | some k, some q, some m, some o, some lim, some f =>
+      match getCellsPages st.store k q m f o lim (st.store.length + 2) none with
+      | some pages => (st, "cells " ++ showPages (pages.map (·.map showCellAns)))
+      | none => (st, "panic")
+    | _, _, _, _, _, _ => (st, "bad-op")
+  | ["txs", kind, q, mode, order, limit, grp, fs, br] =>
+    match parseKind? kind, parseScript? q, parseMode? mode, parseOrder? order, parseNat? limit,
+          parseOptScript? fs, parseRange? br with
+    | some k, some q, some m, some o, some lim, some fs, some br =>
+      if grp = "g" then
+        (st, "txs " ++ showPages ((getTxsGroupedPages st.store k q m fs br o lim (st.store.length + 2) none).map
+          (·.map showTxGroup)))
+      else
+        (st, "txs " ++ showPages ((getTxsPages st.store k q m fs br o lim (st.store.length + 2) none).map
+          (·.map showTxRow)))
+    | _, _, _, _, _, _, _ => (st, "bad-op")
+  | "cap" :: kind :: q :: mode :: f =>
+    match parseKind? kind, parseScript? q, parseMode? mode, parseFilter? f with
+    | some k, some q, some m, some f =>
+      match tip st.store with
+      | none => (st, "cap none")
+      | some (n, h) =>
+        match getCellsCapacity st.store k q m f with
+        | some c => (st, s!"cap {c} {n}.{h}")
+        | none => (st, "panic")
+    | _, _, _, _ => (st, "bad-op")
+  | ["dump"] =>
+    let rows := (st.store.map fun (k, v) => showKey k ++ "=" ++ showVal v).mergeSort strLe
+    (st, s!"dump {rows.length} " ++ joinOr " " rows)
+  | _ => (st, "bad-op")
+
+def main (_args : List String) : IO UInt32 := runLines ({} : St) step
+
 end CkbVerif.Driver.C18
